@@ -67,3 +67,15 @@ func WidePrograms(n int) []string {
 	}
 	return out
 }
+
+// DeepBraces: interpolating strings of every kind n block levels deep (the scanner keeps one stack for braces and string
+// modes; a limit or a table of any size below n is crossed by the pushes of the string modes, not by those of the braces).
+func DeepBraces(n int) []string {
+	r := strings.Repeat
+	body := "\"x $b $c[0] $d->e {$f} ${g}\"; `h $i`; $j = <<<H\n$k $l[1]\nH\n;"
+	return []string{
+		"<?php " + r("if ($a) { ", n) + body + r(" }", n),
+		"<?php " + r("{ ", n) + body + r(" }", n),
+		"<?php $x = " + r("function () { return ", n) + "\"$b\";" + r(" };", n),
+	}
+}
